@@ -68,8 +68,24 @@ Proof.
 Qed.
 Print Assumptions C02_http_client_segmentation.
 
-(* ---- built-in HTTP server (BasicHttpServer.data_received) *)
-Theorem C02_http_server_segmentation : forall utf8_ok first_ok chunks,
+(* ---- built-in HTTP server (BasicHttpServer.data_received).  The request handler is a parameter:
+   for every handler behaviour (returns a response / raises -> 500 / returns None -> 404, per
+   request) the requests handed to it, the answer written for each and the residual buffer do not
+   depend on the segmentation - in particular a raising handler does not cost the requests that
+   follow it in the buffer. *)
+Theorem C02_http_server_segmentation : forall utf8_ok first_ok handler chunks,
+  no_failure (run (httpdh_p1_nn utf8_ok first_ok handler) tt (concat chunks)) ->
+  feeds (httpdh_p1 utf8_ok first_ok handler) tt [] chunks = run (httpdh_p1 utf8_ok first_ok handler) tt (concat chunks) /\
+  run (httpdh_p1 utf8_ok first_ok handler) tt (concat chunks) = run (httpdh_p1_nn utf8_ok first_ok handler) tt (concat chunks).
+Proof.
+  intros u f h chunks NF.
+  exact (seg_via_strict _ _ (httpdh_p1 u f h) (httpdh_p1_nn u f h) (httpdh_agree u f h) (httpdh_stable u f h)
+           (httpdh_progress u f h true) (httpdh_failpfx u f h) chunks tt NF).
+Qed.
+Print Assumptions C02_http_server_segmentation.
+
+(* the requests themselves (handler ignored): the parser instance C05 re-exports *)
+Theorem C02_http_server_requests_segmentation : forall utf8_ok first_ok chunks,
   no_failure (run (httpd_p1_nn utf8_ok first_ok) tt (concat chunks)) ->
   feeds (httpd_p1 utf8_ok first_ok) tt [] chunks = run (httpd_p1 utf8_ok first_ok) tt (concat chunks) /\
   run (httpd_p1 utf8_ok first_ok) tt (concat chunks) = run (httpd_p1_nn utf8_ok first_ok) tt (concat chunks).
@@ -78,7 +94,7 @@ Proof.
   exact (seg_via_strict _ _ (httpd_p1 u f) (httpd_p1_nn u f) (httpd_agree u f) (httpd_stable u f)
            (httpd_progress u f true) (httpd_failpfx u f) chunks tt NF).
 Qed.
-Print Assumptions C02_http_server_segmentation.
+Print Assumptions C02_http_server_requests_segmentation.
 
 (* ---- event channel requests (EventChannel.handle_received on the plaintext buffer) *)
 Theorem C02_event_segmentation : forall utf8_ok first_ok chunks,
@@ -111,14 +127,14 @@ Print Assumptions C02_http_negative_content_length_refuted.
 
 (* ---- the loops of BasicHttpServer and EventChannel exactly as written (they keep the
    connection open where the drain shape says Failed) coincide with `run`: *)
-Theorem C02_http_server_loop_as_written : forall utf8_ok first_ok buf,
-  httpd_loop utf8_ok first_ok (length buf) buf =
-  match run (httpd_p1 utf8_ok first_ok) tt buf with
-  | Out ms _ r => (map SReq ms, r)
-  | Failed ms e => (map SReq ms ++ [SErr500 e], [])      (* 500 sent, buffer emptied *)
+Theorem C02_http_server_loop_as_written : forall utf8_ok first_ok handler buf,
+  httpd_loop utf8_ok first_ok handler (length buf) buf =
+  match run (httpdh_p1 utf8_ok first_ok handler) tt buf with
+  | Out ms _ r => (map (fun ma => SReq (fst ma) (snd ma)) ms, r)
+  | Failed ms e => (map (fun ma => SReq (fst ma) (snd ma)) ms ++ [SErr500 e], [])   (* parser raised: 500, buffer emptied *)
   | OutOfFuel => ([], buf)
   end.
-Proof. intros u f buf. apply (httpd_loop_run u f (length buf) buf). apply le_n. Qed.
+Proof. intros u f h buf. apply (httpd_loop_run u f h (length buf) buf). apply le_n. Qed.
 Print Assumptions C02_http_server_loop_as_written.
 
 Theorem C02_event_loop_as_written : forall utf8_ok first_ok buf ms s r,
@@ -368,3 +384,13 @@ Proof.
            end.
   - vm_compute. reflexivity.
 Qed.
+
+(* three coalesced requests, the handler raises on the first and returns None for the second *)
+Example C02_ex_server_handler_raises :
+  let r := fun k => [71;69;84;32;47;48+k;32;72;47;49;13;10;13;10] in          (* "GET /k H/1" CRLF CRLF *)
+  let h := fun m : http_msg => match nth 5 (fst (fst m)) 0 with 49 => HRaises | 50 => HNothing | _ => HResponse end in
+  httpd_loop (fun _ => true) (fun _ => true) h 100 (r 1 ++ r 2 ++ r 3) =
+    ([SReq (firstn 10 (r 1), [], []) A500; SReq (firstn 10 (r 2), [], []) A404; SReq (firstn 10 (r 3), [], []) AHandler], [])
+  /\ httpd_feeds (fun _ => true) (fun _ => true) h [] (cut_at 0 [3; 14; 20]%nat (r 1 ++ r 2 ++ r 3)) =
+    ([SReq (firstn 10 (r 1), [], []) A500; SReq (firstn 10 (r 2), [], []) A404; SReq (firstn 10 (r 3), [], []) AHandler], []).
+Proof. split; vm_compute; reflexivity. Qed.
